@@ -4,10 +4,12 @@
     chain <lang> <schemas-vir>                 -> ok <vir> | err | panic | nondet
     nf <lang> <schemas-vir>                    -> true | false <conjunct>,<conjunct>…
     ucc <"string">                             -> <"UpperCamelCase(string)">
+    c06witness list | c06witness <name>        -> ok <names…> | <lang> <conjunct> <schemas-vir>
 -/
 import Cog.IR.Vir
 import Cog.Passes.Chain
 import Cog.NF.Preds
+import Cog.NF.Witness
 import Cog.Gen.Chains
 namespace Cog.Drv
 open Cog Cog.IR Cog.Passes
@@ -49,5 +51,11 @@ def uccLine (rest : String) : String :=
   match Sexp.parse rest with
   | some (.str s) => Sexp.quote (ucc s)
   | _ => "bad-sexp"
+
+def witnessLine (rest : String) : String :=
+  if rest == "list" then "ok " ++ " ".intercalate (Cog.NF.Witness.all.map (·.1))
+  else match Cog.NF.Witness.all.find? (fun w => w.1 == rest) with
+    | some (_, lang, conj, ss) => lang ++ " " ++ conj ++ " " ++ (Vir.schemasOut ss).render
+    | none => "unknown-witness"
 
 end Cog.Drv
